@@ -2,7 +2,7 @@
    proof about printFile's regenerated literal tree. *)
 From Coq Require Import List ZArith Bool String Lia.
 From RG.Base Require Import Outcome GoSlice.
-From RG.IR Require Import Val Print File RoundTrip Tables.
+From RG.IR Require Import Val Print File RoundTrip Tables FuncEnv.
 From RGW Require Import Gen_IR Gen_LoadDiff.
 Import ListNotations.
 Local Open Scope Z_scope.
@@ -222,3 +222,30 @@ Lemma gen_convert_site_complete :
            "Context.Types is the checker's info: yes"; "the parsed file is the file converted: yes";
            "the parsed file is the only file checked: yes"]%string = true.
 Proof. vm_compute. reflexivity. Qed.
+
+(* ---- custom functions (Filter(fn) / Do(fn)): the package name they are registered under is the name both producers of
+   IR check a rules file under -- File.PkgPath, the key of the loader's lookups, is that name whatever the file declares *)
+Lemma gen_func_env_wired :
+  forallb (fun c : string * string => String.eqb (snd c) (gen_func_loaded_var ++ ".Pkg.Path()")%string) gen_func_register_calls = true
+  /\ existsb (fun c : string * string => String.eqb (fst c) "AddFunc"%string) gen_func_register_calls = true
+  /\ gen_func_stray_registrations = []
+  /\ gen_func_lookups <> []
+  /\ forallb (fun c : string * string => String.eqb (snd c) "l.file.PkgPath"%string) gen_func_lookups = true
+  /\ gen_file_pkgpath_sources = ["conv.pkg.Path()"%string] /\ gen_converter_pkg_sources = ["ctx.Pkg"%string]
+  /\ gen_loader_pkg_fallback = [("l.pkg == nil => l.pkg = " ++ gen_func_loaded_var ++ ".Pkg")%string].
+Proof. repeat split; try (vm_compute; reflexivity). vm_compute. discriminate. Qed.
+
+Lemma gen_func_pkgs_agree :
+  gen_ir_pkg_from_source = gen_func_registered_pkg /\ gen_ir_pkg_from_precompiler = gen_func_registered_pkg.
+Proof. split; vm_compute; reflexivity. Qed.
+
+Lemma gen_custom_functions_resolve (fn : Type) (decls : list (string * fn)) (uses : list string) (e : env fn) :
+  (forall n, In n uses -> In n (map fst decls)) ->
+  resolve fn gen_ir_pkg_from_source uses (register fn gen_func_registered_pkg decls e) <> None
+  /\ resolve fn gen_ir_pkg_from_precompiler uses (register fn gen_func_registered_pkg decls e)
+     = resolve fn gen_ir_pkg_from_source uses (register fn gen_func_registered_pkg decls e).
+Proof.
+  intros H. destruct gen_func_pkgs_agree as [A B]. split.
+  - now apply resolves_under_registration_package.
+  - now apply producers_resolve_alike.
+Qed.
